@@ -76,6 +76,10 @@ Proof. exact (hist_ok_no_restart h pre). Qed.
 Theorem c03_hist_okb_sound h pre : hist_okb pre h = true -> hist_ok pre h.
 Proof. exact (hist_okb_sound h pre). Qed.
 
+(* The map of latest published updates the Run module's prop_case computes the firing alerts from is [latest]. *)
+Theorem c03_latest_map_is_latest h f : latest_map h !! f = latest h f.
+Proof. exact (latest_map_lookup h f). Qed.
+
 (* The rule evaluated by the Run module's prop_case / by the harness oracle is the rule of the theorems. *)
 Theorem c03_executable_rule_is_the_rule re c s lset : inhibitsb re c s lset = true <-> inhibits re c s lset.
 Proof. exact (inhibitsb_spec re c s lset). Qed.
